@@ -21,14 +21,14 @@ def kindOf (name : String) : Option Kind :=
   | "queue" => some Kinds.Q.queueKind
   | "stack" => some Kinds.S.stackKind
   | "lqueue" => some Kinds.Q.lqueueSpecOnly
-  | "lstack" => some Kinds.S.lstackSpecOnly
+  | "lstack" => some Kinds.S.lstackMonitor
   | _ => none
 
 structure DAcc where
   cases : Nat := 0
   lines : Nat := 0
   tags : List (String × Nat) := []
-  traces : Nat := 0      -- failing cases printed in full so far (capped)
+  traces : List (String × Nat) := []   -- failing cases printed in full so far, per clause (capped)
   samples : Nat := 0
 
 def caseHeader (kind : String) (params : List Val) : String :=
@@ -74,11 +74,14 @@ def processCase (out : IO.FS.Stream) (acc : DAcc) (kind : String) (params : List
       out.putStrLn s!"KNOWN {n} {i} {kind} {sig}"
     if rep.nontrivial then
       out.putStrLn s!"N {hashCase kind params lines}"
-    let failing := rep.diff.isSome || rep.spec.isSome || !rep.known.isEmpty
+    let keys : List String :=
+      (match rep.spec with | some (_, c) => [c] | none => []) ++
+      (match rep.diff with | some _ => ["DIFF:" ++ kind] | none => []) ++ rep.known.map (·.2)
     let mut traces := acc.traces
-    if failing && traces < 40 then
+    let fresh := keys.filter (fun k => !(traces.any (fun p => p.1 == k && p.2 ≥ 3)))
+    if !fresh.isEmpty then
       printTrace out n kind params lines
-      traces := traces + 1
+      traces := bumpTags traces fresh
     let mut samples := acc.samples
     if rep.nontrivial && samples < 2 && lines.size ≤ 80 then
       let body := "; ".intercalate (lines.toList.map Line.render)
